@@ -95,7 +95,9 @@ Has(d) == d \in Deviations
 Ids(S) == {x.id : x \in S}
 Dom(ix) == {e.p : e \in ix}
 Functional(ix) == Cardinality(Dom(ix)) = Cardinality(ix)        \* no two rows with the same plain
-Override(ix, es) == {e \in ix : e.p \notin Dom(es)} \cup es
+OverrideD(ix, es, d) == {e \in ix : e.p \notin d} \cup es       \* (TLC evaluates an argument once, a definition at every use)
+Override(ix, es) == OverrideD(ix, es, Dom(es))
+SubsetEq(S, T) == Cardinality(S \cup T) = Cardinality(T)         \* S \subseteq T for finite sets, n log n for TLC
 PlainsOf(m) == Dom(m.ents)
 AllEnts(M) == UNION {m.ents : m \in M}
 Lookup(ix, p) == (CHOOSE e \in ix : e.p = p).c
@@ -196,7 +198,8 @@ FoldRecord(h, js, els, i, k) ==
 
 RecvBatch(ps, k) ==
   /\ Serving /\ recv = NoRecv /\ k >= 1 /\ nextId + 2 * k - 1 <= MaxId
-  /\ \A i \in 1..k : ps[i] \notin Dom(index) /\ ps[i] \notin Forge /\ \A j \in 1..k : i # j => ps[i] # ps[j]
+  /\ {e \in index : e.p \in {ps[i] : i \in 1..k}} = {}
+  /\ \A i \in 1..k : ps[i] \notin Forge /\ \A j \in 1..k : i # j => ps[i] # ps[j]
   /\ LET C(i) == nextId + 2 * (i - 1)
          M(i) == nextId + 2 * (i - 1) + 1 IN
      /\ enc' = enc \cup {[id |-> C(i), p |-> ps[i]] : i \in 1..k}
@@ -217,18 +220,18 @@ Advance(js, j) == IF j.second THEN js \ {j}
                   ELSE (js \ {j}) \cup {[j EXCEPT !.pc = First("b"), !.second = TRUE]}
 
 JobGetOk(j) ==
-  /\ Running /\ j \in jobs /\ j.pc = "get" /\ j.plains \subseteq Dom(index)
+  /\ Running /\ j \in jobs /\ j.pc = "get" /\ SubsetEq(j.plains, Dom(index))
   /\ jobs' = (jobs \ {j}) \cup {[j EXCEPT !.pc = First("a")]}
   /\ UNCHANGED <<enc, metas, heap, index, acked, recv, mode, todo, nextId, tam, fents, ncrash>>
 
 JobAbandon(j) ==
-  /\ Running /\ j \in jobs /\ j.pc = "get" /\ ~(j.plains \subseteq Dom(index))
+  /\ Running /\ j \in jobs /\ j.pc = "get" /\ ~SubsetEq(j.plains, Dom(index))
   /\ jobs' = jobs \ {j}
   /\ UNCHANGED <<enc, metas, heap, index, acked, recv, mode, todo, nextId, tam, fents, ncrash>>
 
 (* pcs: the job states from which the upload may be taken (the trace spec folds the silent index reads in) *)
 JobUploadFrom(j, pcs) ==
-  /\ Running /\ j \in jobs /\ j.pc \in pcs /\ j.plains \subseteq Dom(index) /\ nextId <= MaxId
+  /\ Running /\ j \in jobs /\ j.pc \in pcs /\ SubsetEq(j.plains, Dom(index)) /\ nextId <= MaxId
   /\ LET j1 == [j EXCEPT !.pc = "upload"]
          rest == Advance((jobs \ {j}) \cup {j1}, j1) IN
      /\ metas' = metas \cup {[id |-> nextId, ents |-> {e \in index : e.p \in j.plains}, n |-> j.n]}
